@@ -37,6 +37,14 @@ def widen(env: bytes) -> bytes:
 
 
 def blob(size: int, seed: int) -> bytes:
+    """Deterministic content per (size, seed).  One seed in eleven yields content made of characters only (see textlike): files
+    and payloads are binary whatever they look like, in every check that draws its contents here."""
+    if seed % 11 == 5 and size:
+        return textlike(size, seed)
+    return _raw(size, seed)
+
+
+def _raw(size: int, seed: int) -> bytes:
     out = bytearray()
     k = 0
     while len(out) < size:
@@ -50,7 +58,7 @@ def textlike(size: int, seed: int) -> bytes:
     digits, base64 alphabet with a final newline, or hex digits with white space.  Bytes are bytes: whatever reads a binary file
     must deliver exactly these."""
     kind = (seed // 4) % 4
-    raw = blob(size, seed)
+    raw = _raw(size, seed)
     if kind == 0:
         return bytes(b"0123456789abcdefABCDEF"[x % 22] for x in raw)
     if kind == 1:
